@@ -148,3 +148,8 @@ func VerifDrainInternalTransport(t *InternalTransport) [][]byte {
 		}
 	}
 }
+
+// VerifReadTlvDatagrams runs the framing loop of the datagram transports over a reader.
+func VerifReadTlvDatagrams(reader io.Reader, onFrame func([]byte), ignoreError func(error) bool) error {
+	return readTlvDatagrams(reader, onFrame, ignoreError)
+}
